@@ -13,14 +13,17 @@ pub struct Budget {
     pub product_cap: usize,
     /// include values outside the root of extensible constraints
     pub ext_out: bool,
+    /// additional sizes beyond max_size, used only for 1-bit / 1-octet items (OCTET/BIT STRING,
+    /// character strings, SEQUENCE OF BOOLEAN): every fragment-count class
+    pub large_sizes: &'static [u64],
 }
 
 impl Budget {
     pub fn quick() -> Self {
-        Budget { max_size: 300, nested_leaf: 3, product_cap: 512, ext_out: true }
+        Budget { max_size: 300, nested_leaf: 3, product_cap: 512, ext_out: true, large_sizes: &[65536, 81920] }
     }
     pub fn thorough() -> Self {
-        Budget { max_size: 70000, nested_leaf: 4, product_cap: 4096, ext_out: true }
+        Budget { max_size: 70000, nested_leaf: 4, product_cap: 4096, ext_out: true, large_sizes: &[81919, 81920, 81921, 98304, 131072, 147456, 200000] }
     }
     pub fn with_max_size(mut self, n: u64) -> Self {
         self.max_size = n;
@@ -32,7 +35,7 @@ pub const SIZE_BOUNDARIES: [u64; 22] = [0, 1, 2, 3, 4, 5, 6, 17, 127, 128, 255, 
 
 pub fn int_boundaries() -> Vec<i128> {
     let mut v: Vec<i128> = vec![0, 1, -1, 2, -2, 5, 7, 8, 100, -100];
-    for k in [7u32, 8, 15, 16, 31, 32, 63] {
+    for k in [7u32, 8, 15, 16, 23, 24, 31, 32, 39, 40, 47, 48, 55, 56, 63] {
         let p = 1i128 << k;
         for d in [-1i128, 0, 1] {
             v.push(p + d);
@@ -91,6 +94,8 @@ pub fn int_values(range: &Option<IntRange>, b: &Budget, nested: bool) -> Vec<Val
             o.extend([u + 1, u + 2, u + 300]);
         }
         o.extend([i64::MIN as i128, i64::MAX as i128, -129, 128, 70000]);
+        // every octet boundary of the unconstrained form (-2^(8k-1), 2^(8k-1) and neighbours)
+        o.extend(int_boundaries());
         o.retain(|x| !inside(*x) && *x >= i64::MIN as i128 && *x <= i64::MAX as i128);
         o.sort();
         o.dedup();
@@ -102,6 +107,18 @@ pub fn int_values(range: &Option<IntRange>, b: &Budget, nested: bool) -> Vec<Val
         out = take_spread(out, b.nested_leaf.max(2));
     }
     out.into_iter().map(Value::Int).collect()
+}
+
+pub fn sizes_for_cheap(size: &Size, b: &Budget, nested: bool) -> Vec<u64> {
+    let mut v = sizes_for(size, b, nested);
+    if !nested {
+        for n in b.large_sizes {
+            if (size.contains(*n) || size.ext()) && !v.contains(n) {
+                v.push(*n);
+            }
+        }
+    }
+    v
 }
 
 pub fn sizes_for(size: &Size, b: &Budget, nested: bool) -> Vec<u64> {
@@ -194,7 +211,7 @@ fn values_d(m: &Module, ty: &Ty, b: &Budget, depth: usize) -> Vec<Value> {
         }
         Ty::BitStr { size, .. } => {
             let mut out = vec![];
-            for n in sizes_for(size, b, nested) {
+            for n in sizes_for_cheap(size, b, nested) {
                 for p in patterns(nested, n) {
                     let bytes = byte_pattern(p, ((n + 7) / 8) as usize);
                     let mut bits = crate::refbits::unpack(&bytes);
@@ -206,7 +223,7 @@ fn values_d(m: &Module, ty: &Ty, b: &Budget, depth: usize) -> Vec<Value> {
         }
         Ty::OctStr { size, .. } => {
             let mut out = vec![];
-            for n in sizes_for(size, b, nested) {
+            for n in sizes_for_cheap(size, b, nested) {
                 for p in patterns(nested, n) {
                     out.push(Value::Bytes(byte_pattern(p, n as usize)));
                 }
@@ -215,7 +232,7 @@ fn values_d(m: &Module, ty: &Ty, b: &Budget, depth: usize) -> Vec<Value> {
         }
         Ty::Str { cs, size, .. } => {
             let mut out = vec![];
-            for n in sizes_for(size, b, nested) {
+            for n in sizes_for_cheap(size, b, nested) {
                 for p in patterns(nested, n) {
                     out.push(Value::Str(string_of(*cs, n as usize, p)));
                 }
@@ -235,7 +252,8 @@ fn values_d(m: &Module, ty: &Ty, b: &Budget, depth: usize) -> Vec<Value> {
             let inner_ty = m.resolve(inner);
             let cheap = matches!(inner_ty, Ty::Bool | Ty::Null | Ty::Int { .. } | Ty::Enum { .. });
             let mut out = vec![];
-            for n in sizes_for(size, b, nested) {
+            let sizes = if matches!(inner_ty, Ty::Bool) { sizes_for_cheap(size, b, nested) } else { sizes_for(size, b, nested) };
+            for n in sizes {
                 if n > 300 && !cheap {
                     continue;
                 }
